@@ -1,3 +1,4 @@
+import os
 # Obligation tables: one entry per solver query family.  See DESIGN.md.
 PROPERTIES = {}
 
@@ -279,8 +280,8 @@ for _p in ('C04', 'C13'):
         if 'defs_extra' in _o: _o['defs'].update(_o.pop('defs_extra'))
 
 PROPERTIES['C20'] = {
-  'level_text': 'Bounded model checking (differential) of the C binding sources against the C++ members they name: for all finite double arguments every manifold_box_* / manifold_rect_* function returns exactly what the C++ Box/Rect call returns and constructs at the caller-supplied address; the Error/OpType/JoinType tables are name-preserving and injective; scalar conversions keep component order.',
-  'level_note': 'Covers bindings/c/box.cpp, rect.cpp and conv.cpp completely (value-level functions). The ~250 wrappers of manifoldc.cpp / cross.cpp that forward to Manifold/CrossSection methods (argument flow into external C++ calls, alloc/destruct/delete pairing, callbacks) are NOT covered by this check.',
+  'level_text': 'Bounded model checking (differential) of the C binding sources against the C++ members they name: for all finite double arguments every manifold_box_* / manifold_rect_* function returns exactly what the C++ Box/Rect call returns and constructs at the caller-supplied address; the Error/OpType/JoinType tables are name-preserving and injective; scalar conversions keep component order; 14 forwarding wrappers of manifoldc.cpp call the C++ method they name exactly once, on the object passed, with bit-identical arguments in order, and build the result at the caller\'s address.',
+  'level_note': 'Covers bindings/c/box.cpp, rect.cpp and conv.cpp completely (value-level functions) and 14 forwarding wrappers of manifoldc.cpp (translate, scale, mirror, rotate, transform, trim_by_plane, smooth_out, refine, refine_to_length, refine_to_tolerance, set_tolerance, simplify, boolean, min_gap) with the C++ method replaced by a recording stub. The remaining ~230 wrappers of manifoldc.cpp / cross.cpp (MeshGL accessors and copies, vectors, callbacks, alloc/destruct/delete pairing, cross-section calls) are NOT covered by this check.',
   'obligations': [
     dict(name='box_accessors', harness='c20_cbind.cpp', entry='h_box', real='f16', defs={'VF_FB': 64, 'VF_PART': 1}, backends=['minisat', 'kissat'], timeout=600, unwind={'default': 7},
          claim='[part: min, max, dimensions, center, scale] manifold_box, _min, _max, _dimensions, _center, _scale, _contains_pt, _contains_box, _does_overlap_pt, _does_overlap_box, _is_finite, _union, _translate, _mul, _include_pt equal the C++ Box calls; placement at mem',
@@ -408,6 +409,30 @@ PROPERTIES['C18'] = {
 }
 # the progress-counter protocol is a C06 matter as much as a C15 one (polled from another thread at any time)
 PROPERTIES['C06']['obligations'] += [dict(o) for o in PROPERTIES['C15']['obligations'] if o['name'] in ('progress_vs_reset', 'reset_order')]
+_FW = [  # (define, wrapper, C++ method, mangled pattern, stub)
+  (1, 'manifold_translate', 'Manifold::Translate(vec3)', r'_ZNK8manifold8Manifold9TranslateEN6linalg3vecIdLi3EEE', 'vf_stub_V3'),
+  (2, 'manifold_scale', 'Manifold::Scale(vec3)', r'_ZNK8manifold8Manifold5ScaleEN6linalg3vecIdLi3EEE', 'vf_stub_V3'),
+  (3, 'manifold_mirror', 'Manifold::Mirror(vec3)', r'_ZNK8manifold8Manifold6MirrorEN6linalg3vecIdLi3EEE', 'vf_stub_V3'),
+  (4, 'manifold_rotate', 'Manifold::Rotate(double,double,double)', r'_ZNK8manifold8Manifold6RotateEddd', 'vf_stub_DDD'),
+  (5, 'manifold_transform', 'Manifold::Transform(mat3x4) (12 scalars, column-major)', r'_ZNK8manifold8Manifold9TransformERKN6linalg3matIdLi3ELi4EEE', 'vf_stub_M34'),
+  (6, 'manifold_trim_by_plane', 'Manifold::TrimByPlane(vec3,double)', r'_ZNK8manifold8Manifold11TrimByPlaneEN6linalg3vecIdLi3EEEd', 'vf_stub_V3D'),
+  (7, 'manifold_smooth_out', 'Manifold::SmoothOut(double,double)', r'_ZNK8manifold8Manifold9SmoothOutEdd', 'vf_stub_DD'),
+  (8, 'manifold_refine_to_length', 'Manifold::RefineToLength(double)', r'_ZNK8manifold8Manifold14RefineToLengthEd', 'vf_stub_D'),
+  (9, 'manifold_refine_to_tolerance', 'Manifold::RefineToTolerance(double)', r'_ZNK8manifold8Manifold17RefineToToleranceEd', 'vf_stub_D'),
+  (10, 'manifold_set_tolerance', 'Manifold::SetTolerance(double)', r'_ZNK8manifold8Manifold12SetToleranceEd', 'vf_stub_D'),
+  (11, 'manifold_simplify', 'Manifold::Simplify(double)', r'_ZNK8manifold8Manifold8SimplifyEd', 'vf_stub_D'),
+  (12, 'manifold_refine', 'Manifold::Refine(int)', r'_ZNK8manifold8Manifold6RefineEi', 'vf_stub_I'),
+  (13, 'manifold_boolean', 'Manifold::Boolean(const Manifold&, OpType) incl. the ManifoldOpType mapping', r'_ZNK8manifold8Manifold7BooleanERKS0_NS_6OpTypeE', 'vf_stub_MO'),
+  (14, 'manifold_min_gap', 'Manifold::MinGap(const Manifold&, double)', r'_ZNK8manifold8Manifold6MinGapERKS0_d', 'vf_stub_MD'),
+]
+PROPERTIES['C20']['obligations'] += [
+    dict(name='fw_' + w[len('manifold_'):], harness='c20_forward.cpp', entry='h_fw', defs={'VF_W': k},
+         redirect={pat + '$': stub, r'_ZN8manifold8ManifoldC[12]ERKS0_$': 'vf_stub_copy', r'_ZN8manifold8ManifoldD[12]Ev$': 'vf_stub_dtor'},
+         backends=['minisat'], timeout=300, unwind={'default': 13},
+         claim='%s forwards to %s: called exactly once on the object passed in, every argument bit-identical and in order, result copy-constructed at the caller\'s address from the method\'s return value, the temporary destroyed exactly once, handle returned = mem' % (w, m),
+         bounds='all argument values (every 64-bit pattern of each double, every int); the C++ method, Manifold copy constructor and destructor are recording stubs (they live in manifold.cpp)',
+         targets=['bindings/c/manifoldc.cpp ' + w, 'bindings/c/conv.cpp from_c/to_c'])
+    for k, w, m, pat, stub in _FW]
 PROPERTIES['C19']['obligations'] += [
     dict(name='compose_tolerance_floor', harness='c19_compose.cpp', entry='h_compose', models=['stdlib.h', 'rbtree.h', 'pthread.h'],
          redirect={'_ZN8manifold3VecIiLb1EE13resize_nofillEm': 'vf_stub_resize_nofill'},
